@@ -1588,6 +1588,24 @@ class LinearOperator(object):
         else:
             raise RuntimeError("Invalid arguments {} to expand.".format(sizes))
 
+        # The batch sizes must be a valid target for torch.Tensor.expand: no fewer dimensions than the current
+        # batch shape, and every existing batch dimension is kept (-1 or same size) unless it has size 1
+        new_batch_shape = shape[:-2]
+        num_new_dims = len(new_batch_shape) - len(self.batch_shape)
+        if (
+            num_new_dims < 0
+            or any(size < 0 for size in new_batch_shape[:num_new_dims])
+            or any(
+                new != -1 and (new < 0 or (new != old and old != 1))
+                for new, old in zip(new_batch_shape[num_new_dims:], self.batch_shape)
+            )
+        ):
+            raise RuntimeError(
+                "Invalid expand arguments {}: cannot expand batch shape {} to {}.".format(
+                    tuple(sizes), tuple(self.batch_shape), tuple(new_batch_shape)
+                )
+            )
+
         res = self._expand_batch(batch_shape=shape[:-2])
         return res
 
